@@ -296,11 +296,64 @@ fn string_failure(g: &Grammar, s: &str, kind: &str, expect_tree: Option<&str>) -
         return Some(format!("trees differ for {:?}: grammar {} vs lexical parser {}", s, ptree, ltree));
     }
     if let Some(want) = expect_tree {
-        if ptree != want {
+        if ptree != want && norm_nums(&ptree) != norm_nums(want) {
             return Some(format!("tree of {:?} is {} but the lexicon implies {}", s, ptree, want));
         }
     }
     None
+}
+
+/// split a text into runs of [0-9.] and runs of everything else
+fn runs(s: &str) -> Vec<(bool, String)> {
+    let mut out: Vec<(bool, String)> = vec![];
+    for c in s.chars() {
+        let num = c.is_ascii_digit() || c == '.';
+        match out.last_mut() {
+            Some((n, t)) if *n == num => t.push(c),
+            _ => out.push((num, c.to_string())),
+        }
+    }
+    out
+}
+
+/// the formatter's text equals the lexicon rendering: every keyword / name run identical, every
+/// numeric run identical or — for decimal numbers — equal in value (the property fixes the
+/// keywords and the layout, not the spelling of a float)
+fn same_up_to_float_spelling(a: &str, b: &str) -> bool {
+    let (ra, rb) = (runs(a), runs(b));
+    if ra.len() != rb.len() {
+        return false;
+    }
+    ra.iter().zip(rb.iter()).all(|((na, ta), (nb, tb))| {
+        na == nb
+            && (ta == tb
+                || (*na && (ta.contains('.') || tb.contains('.')) && matches!((ta.parse::<f64>(), tb.parse::<f64>()), (Ok(x), Ok(y)) if x == y)))
+    })
+}
+
+/// normalise the decimal literals inside a structural rendering (`"0.50"` -> `"0.5"`)
+fn norm_nums(tree: &str) -> String {
+    let mut out = String::new();
+    let mut rest = tree;
+    while let Some(i) = rest.find('"') {
+        out.push_str(&rest[..=i]);
+        rest = &rest[i + 1..];
+        if let Some(j) = rest.find('"') {
+            let lit = &rest[..j];
+            if !lit.is_empty() && lit.contains('.') && lit.chars().all(|c| c.is_ascii_digit() || c == '.') {
+                match lit.parse::<f64>() {
+                    Ok(x) => out.push_str(&format!("{}", x)),
+                    Err(_) => out.push_str(lit),
+                }
+            } else {
+                out.push_str(lit);
+            }
+            out.push('"');
+            rest = &rest[j + 1..];
+        }
+    }
+    out.push_str(rest);
+    out
 }
 
 fn enum_failure(g: &Grammar, nd: &ND) -> Option<String> {
@@ -311,7 +364,7 @@ fn enum_failure(g: &Grammar, nd: &ND) -> Option<String> {
     };
     let (ref_text, ref_tree) = reference(nd, &real);
     let stripped: String = s.chars().filter(|c| *c != ' ').collect();
-    if stripped != ref_text {
+    if !same_up_to_float_spelling(&stripped, &ref_text) {
         return Some(format!("the ASCII formatter wrote {:?}; the OpenNARS lexicon gives {:?} (spaces ignored)", s, ref_text));
     }
     string_failure(g, &s, nd.kind_name(), Some(&ref_tree))
